@@ -1,7 +1,7 @@
 //! Parent/child process structure, verdicts, evidence files, known findings.
 
 use crate::registry::{self, Check, Engine};
-use crate::report::{Finding, Rep};
+use nvcore::report::{Finding, Rep};
 use nvcore::rng::{derive, tag};
 use serde_json::{json, Value};
 use std::collections::BTreeMap;
@@ -91,6 +91,7 @@ pub fn case_seeds(check: &Check, tier: &str, seed: u64, i: u64) -> Vec<(u64, u64
                 .map(|c| (derive(seed, &[tag(check.id), i]), derive(seed, &[tag(check.id), i, c + 1])))
                 .collect()
         }
+        Engine::EProof => vec![(derive(seed, &[tag(check.id), i]), 0)],
     }
 }
 
@@ -111,6 +112,12 @@ pub fn run_one(check: &Check, tier: &str, seed: u64, i: u64, scratch: &Path) -> 
             }
             rep
         }
+        Engine::EProof => {
+            let (h, _) = seeds[0];
+            let mut rep = Rep::new(h);
+            run_proof_case(check.id, h, i, &mut rep, 200);
+            rep
+        }
         Engine::EModelMatrix => {
             let mut runs: Vec<Rep> = Vec::new();
             for (ci, (h, c)) in seeds.iter().enumerate() {
@@ -127,6 +134,22 @@ pub fn run_one(check: &Check, tier: &str, seed: u64, i: u64, scratch: &Path) -> 
             }
             matrix_verdict(runs)
         }
+    }
+}
+
+pub fn run_proof_case(id: &str, seed: u64, i: u64, rep: &mut Rep, budget: usize) {
+    use nvcore::proofs::{run_c07, run_c08, run_c18};
+    use nvcore::reftrie::{Toy, B3, S2};
+    match (id, i % 10) {
+        ("C07", 0..=5) => run_c07::<B3>(seed, rep),
+        ("C07", 6..=8) => run_c07::<S2>(seed, rep),
+        ("C07", _) => run_c07::<Toy>(seed, rep),
+        ("C08", 0..=6) => run_c08::<B3>(seed, rep),
+        ("C08", _) => run_c08::<S2>(seed, rep),
+        ("C18", 0..=4) => run_c18::<B3>(seed, rep, budget),
+        ("C18", 5..=7) => run_c18::<S2>(seed, rep, budget),
+        ("C18", _) => run_c18::<Toy>(seed, rep, budget),
+        _ => unreachable!(),
     }
 }
 
